@@ -13,12 +13,13 @@ Families (details in notes/design-C19.md):
   eventlog  EventLog append / read, sharding strategies, size and time retention
   group     ConsumerGroup join / leave / poll / commit under each assignment strategy
   relay     OutboxRelay -> IdempotencyStore -> sink (exactly-once forwarding)
+  stream    StreamProcessor: every record fed in is emitted in a window result or accounted as late
 """
 
 from __future__ import annotations
 
 from hsverif.c19_mq import gen_mq, run_mq, shrink_mq  # noqa: F401  (shrink_mq: used by hand for pinned witnesses)
-from hsverif.c19_stream import gen_eventlog, gen_group, run_eventlog, run_group
+from hsverif.c19_stream import gen_eventlog, gen_group, gen_stream, run_eventlog, run_group, run_stream
 from hsverif.c19_topic import gen_relay, gen_topic, run_relay, run_topic
 from hsverif.core import Family
 
@@ -33,7 +34,7 @@ RULE = (
     "consumers, timeouts for everything in flight, 2x polls) after which every message must be acknowledged or dead-lettered. "
     "Non-trivial: mq = at least one redelivery dispatched and one scripted membership change; topic = a subscription change "
     "and >=2 publishes with an active subscriber; eventlog = some partition received >=2 appends; group = >=2 rebalances with "
-    "a join and a leave; relay = >=2 entries over >=2 poll cycles. Distinct by hash of the case."
+    "a join and a leave; relay = >=2 entries over >=2 poll cycles; stream = >=2 records and an emitted window. Distinct by hash of the case."
 )
 ASSUMPTIONS = [
     "a consumer that unsubscribes while a delivery is already on the wire may still receive it (checked: subscribed at the dispatch instant = receipt - delivery_latency)",
@@ -46,7 +47,7 @@ ASSUMPTIONS = [
     "Topic replay deliveries (is_replay=True) are not counted against exactly-once",
     "bounded 'eventually': the drain issues 2*(n_published*(max_redeliveries+3)+4) polls spaced > delivery latency and waits one redelivery delay twice",
 ]
-MUST_OBSERVE = ["deliveries_received", "accounting_checks", "fanout_pairs_checked", "appends_checked", "rebalances_checked", "entries_checked"]
+MUST_OBSERVE = ["deliveries_received", "accounting_checks", "fanout_pairs_checked", "appends_checked", "rebalances_checked", "entries_checked", "records_checked"]
 
 FAMILIES = {
     "mq": Family("mq", gen_mq, run_mq, case_timeout=60.0),
@@ -54,9 +55,10 @@ FAMILIES = {
     "eventlog": Family("eventlog", gen_eventlog, run_eventlog),
     "group": Family("group", gen_group, run_group),
     "relay": Family("relay", gen_relay, run_relay),
+    "stream": Family("stream", gen_stream, run_stream),
 }
 
 BUDGET = {
-    "quick": {"mq": 1500, "topic": 600, "eventlog": 500, "group": 600, "relay": 400},
-    "thorough": {"mq": 60000, "topic": 20000, "eventlog": 15000, "group": 20000, "relay": 10000},
+    "quick": {"mq": 1500, "topic": 600, "eventlog": 500, "group": 600, "relay": 400, "stream": 300},
+    "thorough": {"mq": 300000, "topic": 80000, "eventlog": 60000, "group": 100000, "relay": 50000, "stream": 30000},
 }
